@@ -23,6 +23,7 @@ fn arg_val(args: &[String], name: &str) -> Option<String> {
 fn main() {
     let args: Vec<String> = std::env::args().collect();
     world::quiet_panics();
+    sw::install_probe_hook();
     match args.get(1).map(|s| s.as_str()) {
         Some("replay") => cmd_replay(&args[2..]),
         Some("random") => random::run(&args[2..]),
